@@ -242,7 +242,8 @@ func RunScalarMixture(c *core.Ctx, checkEM bool) {
 		weights[i] = float64(t.Range(1, 4))
 	}
 	what := "mixture:" + fam.name
-	c.Logf("%s k=%d, %d EM steps, %d observations %v, pool %s", fam.name, k, steps, n, vecOf(x), cfg)
+	optE, optW := !t.Bool(1, 5), !t.Bool(1, 5)
+	c.Logf("%s k=%d, %d EM steps, %d observations %v, OptimizeEmissions=%v OptimizeWeights=%v, pool %s", fam.name, k, steps, n, vecOf(x), optE, optW, cfg)
 	before := snapVecs([]ad.ConstVector{x})
 	// the summarised ("discrete") batch variant for integer valued data
 	discrete := kind != 0 && t.Bool(1, 2)
@@ -271,6 +272,12 @@ func RunScalarMixture(c *core.Ctx, checkEM bool) {
 		if err != nil {
 			o.err = err.Error()
 			return o
+		}
+		switch e := est.(type) {
+		case *se.MixtureEstimator:
+			e.OptimizeEmissions, e.OptimizeWeights = optE, optW
+		case *se.DiscreteMixtureEstimator:
+			e.OptimizeEmissions, e.OptimizeWeights = optE, optW
 		}
 		if pv, site := core.Try(func() {
 			// SetData + Estimate: for the summarised variant EstimateOnData would
@@ -412,25 +419,60 @@ func RunVectorHmm(c *core.Ctx, checkEM bool) {
 		recs[r] = ad.NewDenseFloat64Vector(v)
 	}
 	what := []string{"hmm:categorical-emissions", "hmm:normal-emissions"}[kind]
-	c.Logf("%s states=%d, %d Baum-Welch steps, %d records, pool %s", what, m, steps, nrec, cfg)
+	// estimator options
+	chunk := 0
+	if t.Bool(1, 3) {
+		chunk = t.Range(1, 4)
+	}
+	// OptimizeTransitions = false is not drawn: it dereferences a nil matrix on
+	// every call, sequentially as well (a typed nil *DenseFloat64Matrix in a
+	// Matrix interface passes the `tr != nil` test of BaumWelchStep)
+	optE, optT := !t.Bool(1, 5), true
+	// with ChunkSize > 0 every sequence is cut into consecutive pieces of at
+	// most that many observations, which are treated as independent sequences
+	chunks := recs
+	if chunk > 0 {
+		chunks = nil
+		for _, r := range recs {
+			v := vecOf(r)
+			for a := 0; a < len(v); a += chunk {
+				b := a + chunk
+				if b > len(v) {
+					b = len(v)
+				}
+				chunks = append(chunks, ad.NewDenseFloat64Vector(append([]float64(nil), v[a:b]...)))
+			}
+		}
+	}
+	c.Logf("%s states=%d, %d Baum-Welch steps, %d records, ChunkSize=%d OptimizeEmissions=%v OptimizeTransitions=%v, pool %s", what, m, steps, nrec, chunk, optE, optT, cfg)
 	for r, v := range recs {
 		c.Logf("  record %d: %v", r, vecOf(v))
 	}
 	before := snapVecs(recs)
+	var published []st.VectorPdf // models of the parallel run, one per hook call
 	run := func(p tp.ThreadPool) outcome {
 		var o outcome
 		var like []float64
+		var est *ve.HmmEstimator
+		published = nil
 		hook := generic.BaumWelchHook{Value: func(h generic.BasicHmm, i int, likelihood, epsilon float64) {
+			if d, err := est.GetEstimate(); err == nil {
+				published = append(published, d.CloneVectorPdf())
+			}
 			if i == 0 {
 				return
 			}
 			like = append(like, likelihood)
 		}}
-		est, err := ve.NewHmmEstimator(ad.NewDenseFloat64Vector(append([]float64(nil), pi...)), ad.NewDenseFloat64Matrix(append([]float64(nil), tr...), m, m), nil, nil, nil, mkEmissions(), math.Inf(-1), steps, hook)
+		var err error
+		est, err = ve.NewHmmEstimator(ad.NewDenseFloat64Vector(append([]float64(nil), pi...)), ad.NewDenseFloat64Matrix(append([]float64(nil), tr...), m, m), nil, nil, nil, mkEmissions(), math.Inf(-1), steps, hook)
 		if err != nil {
 			o.err = err.Error()
 			return o
 		}
+		est.ChunkSize = chunk
+		est.OptimizeEmissions = optE
+		est.OptimizeTransitions = optT
 		if pv, site := core.Try(func() { err = est.EstimateOnData(recs, nil, p) }); pv != nil {
 			if _, ok := pv.(tp.Abort); ok {
 				panic(pv)
@@ -472,6 +514,30 @@ func RunVectorHmm(c *core.Ctx, checkEM bool) {
 	inputsUnchanged(c, what, before, snapVecs(recs))
 	if checkEM && par.err == "" {
 		checkMonotone(c, what, par.trace)
+		// the likelihood reported at hook call i is the log-likelihood of the
+		// (chunked) data under the model published at call i-1, evaluated
+		// here through the public density of that model
+		for i := 0; i < len(par.trace) && i < len(published); i++ {
+			l, ok := 0.0, true
+			r := ad.NewFloat64(0)
+			for _, x := range chunks {
+				if pv, _ := core.Try(func() {
+					if err := published[i].LogPdf(r, x); err != nil {
+						ok = false
+					}
+				}); pv != nil {
+					ok = false
+				}
+				l += r.GetFloat64()
+			}
+			if !ok || math.IsNaN(l) || math.IsInf(l, 0) {
+				continue
+			}
+			if !relClose(l, par.trace[i], 1e-8) {
+				c.Fail("hook-likelihood", what+"|reported-likelihood-is-not-that-of-the-model", "%s (ChunkSize %d): hook call %d reported likelihood %.12g, but the log-likelihood of the data under the model of that iteration (published at call %d) is %.12g", what, chunk, i+1, par.trace[i], i, l)
+			}
+		}
+		c.Count("hook-likelihood:checked")
 	}
 	c.Nontriv = true
 	c.Sample = map[string]interface{}{"workload": "HMM Baum-Welch", "emissions": what, "states": m, "steps": steps, "records": nrec, "pool": cfg.String(), "jobs_per_executor": res.JobsPerExecutor, "trace": par.trace}
